@@ -12,6 +12,7 @@ import (
 
 	"github.com/comdex-official/comdex/app/wasm/bindings"
 	assettypes "github.com/comdex-official/comdex/x/asset/types"
+	collectortypes "github.com/comdex-official/comdex/x/collector/types"
 	auctypes "github.com/comdex-official/comdex/x/auctionsV2/types"
 	esmtypes "github.com/comdex-official/comdex/x/esm/types"
 	liqv1types "github.com/comdex-official/comdex/x/liquidation/types"
@@ -59,6 +60,7 @@ type Config struct {
 	Users                      []string
 	FundColl                   int64
 	FundDebt                   int64 // fixture-minted debt coins per user (bidders), recorded as fixtureMint
+	CollectorFund              int64 // fixture-minted debt coins booked as the app's net fees of the debt asset (a collector rich enough to cover any auction loss)
 	Interest                   bool  // register app in rewards so that stability-fee interest accrues
 	Bonus                      Frac  // auction bonus of externally initiated auctions
 	// first-generation ("V1") liquidation + Dutch auction parameters; zero values = defaults (same batch/duration as V2, buffer 6/5, cusp 7/10)
@@ -247,6 +249,13 @@ func Setup(cfg Config) *World {
 		}
 		must(w.App.BankKeeper.MintCoins(w.Ctx, vaulttypes.ModuleName, coins))
 		must(w.App.BankKeeper.SendCoinsFromModuleToAccount(w.Ctx, vaulttypes.ModuleName, sim.Addr(u), coins))
+	}
+	if cfg.CollectorFund > 0 {
+		fund := sdk.NewCoins(sdk.NewInt64Coin("ust", cfg.CollectorFund))
+		must(w.App.BankKeeper.MintCoins(w.Ctx, vaulttypes.ModuleName, fund))
+		must(w.App.BankKeeper.SendCoinsFromModuleToModule(w.Ctx, vaulttypes.ModuleName, collectortypes.ModuleName, fund))
+		must(w.App.CollectorKeeper.SetNetFeeCollectedData(w.Ctx, w.App1, us, sdk.NewInt(cfg.CollectorFund)))
+		w.FixtureMint += cfg.CollectorFund
 	}
 	return w
 }
